@@ -31,9 +31,14 @@ def explicit_project(model, defer_sub: bool = False):
 
     project = projgen.render(model)
     if defer_sub and model.has_sub:
-        main_outs = [s.out[0] for s in model.steps if s.plan == projgen.MAIN and s.out]
-        sub_inputs = {p for s in model.steps if s.plan == projgen.SUB for p in s.all_inputs()}
-        main_outs = [o for o in main_outs if o not in sub_inputs] or main_outs
+        # only an output that does not itself (transitively) need an output of a sub-plan step: otherwise the
+        # sub-plan would wait for something that waits for the sub-plan's own steps
+        tainted = set()
+        for s in model.steps:
+            if s.plan == projgen.SUB:
+                tainted |= set(s.all_outputs()) | projgen._downstream(model, s)
+        main_outs = [s.out[0] for s in model.steps
+                     if s.plan == projgen.MAIN and s.out and not s.optional and not (set(s.all_outputs()) & tainted)]
         if main_outs:
             project.scripts[projgen.SUB_CMD] = list(project.scripts[projgen.SUB_CMD]) + [
                 A.amend(inp=[main_outs[0]]), A.read(main_outs[0])]
